@@ -116,6 +116,23 @@ def generate(rng, tier, index):
     if index < 4:
         Ts = [[1, 2, 8], [3, 12, 24], [5, 16], [7, 10, 20]][index]
         return {"mode": "grid", "Ts": Ts, "random_seed": int(rng.integers(0, 2**31)), "n_random": 200}
+    if index % 12 in (4, 5):
+        # the library's own schedule-changing history: its S-parameter driver switches every port source but one off
+        # *after* placement (functional update of the switch), calls apply_params and runs
+        ax = int(rng.integers(0, 3))
+        cross = [int(rng.integers(8, 13)), int(rng.integers(8, 13))]
+        length = int(rng.integers(12, 17))
+        n_in = int(rng.integers(2, 4))
+        pos = sorted(int(x) for x in rng.choice(np.arange(2, length - 2), size=n_in + 1, replace=False))
+        ports = []
+        for i, p in enumerate(pos):
+            size = [int(rng.integers(6, c)) for c in cross]  # >= 6 cells: the mode solver fails on tiny homogeneous ports
+            ports.append({"name": f"p{i}", "pos": p + 0.5, "center": [c / 2 for c in cross], "size": size, "direction": specgen.choice(rng, ["+", "-"]), "filter_pol": specgen.choice(rng, ["te", "tm", None])})
+        out_i = int(rng.integers(0, len(ports)))
+        outputs = [ports.pop(out_i)]
+        return {"mode": "sparam_flow", "spacing": specgen.SPACING, "axis": ax, "cross": cross, "length": length, "inputs": ports, "outputs": outputs,
+                "active": ports[int(rng.integers(0, len(ports)))]["name"], "wavelength_cells": float(rng.uniform(8, 12)), "eps": float(rng.uniform(1.0, 4.0)),
+                "pml": int(rng.integers(3, 6)), "steps": int(rng.integers(50, 90))}
     spec = specgen.rand_scene(
         rng, T=(5, 16), shape=(4, 8), pml=(2, 3), p_nonuniform=0.3, tiers=("iso",), n_sources=(1, 3), n_detectors=(0, 0), sigma_e=False, mu=False,
         source_kinds=("dipole", "dipole", "uniform_plane", "gaussian_plane", "tfsf_region", "mode"),
@@ -223,7 +240,42 @@ def _unit_switch(sw):
 COMP = {"Ex": ("E", 0), "Ey": ("E", 1), "Ez": ("E", 2), "Hx": ("H", 0), "Hy": ("H", 1), "Hz": ("H", 2)}
 
 
+def _exec_sparam_flow(spec):
+    """Run the S-parameter-driver history in a float32 child process and judge its report."""
+    import json
+    import os
+    import subprocess
+    import sys
+
+    from fdsim import env
+
+    root = os.path.dirname(os.path.dirname(os.path.abspath(__file__)))
+    p = subprocess.run([sys.executable, os.path.join(root, "fdsim", "sparamchild.py")], input=json.dumps(spec), capture_output=True, text=True, timeout=1500, env=dict(os.environ))
+    line = next((ln for ln in p.stdout.splitlines()[::-1] if ln.startswith("CHILD-RESULT ")), None)
+    if line is None and any(ln.startswith("CHILD-REJECT") for ln in p.stdout.splitlines()):
+        return {"rejected": True, "nontrivial": False, "stats": {"rejected": 1, "probe_sparam_flow": 1}, "digest": "rejected:mode-solver"}
+    if line is None:
+        raise env.HarnessError(f"sparam child failed rc={p.returncode}: {(p.stderr or '')[-1500:]}")
+    r = json.loads(line[len("CHILD-RESULT "):])
+    gscale = max(r["scale"].values()) if r["scale"] else 0.0
+    worst, wk = 0.0, ""
+    for k, d in r["diff"].items():
+        rel = d / max(r["scale"][k], 1e-3 * gscale) if gscale > 0 else (0.0 if d == 0 else float("inf"))
+        if rel > worst:
+            worst, wk = rel, k
+    viol = []
+    tol = 1e-4  # float32 run; a source that should be silent changes the records by O(1)
+    if not (worst <= tol):
+        viol.append({"monitor": "switched_off_source_still_injects", "flow": "fdtdx.utils.sparams.calculate_sparam", "active_port": spec["active"], "silent_ports": [p_["name"] for p_ in spec["inputs"] if p_["name"] != spec["active"]],
+                     "metric": "rel_diff of detector states vs the run with the silent sources removed", "value": worst, "tolerance": tol, "key": wk})
+    stats = {"sim_steps": 2 * r["T"], "sim_time_fs": 0.0, "fault_switch_off_after_placement": r["n_sources"] - 1, "probe_sparam_flow": 1}
+    return {"violations": viol, "stats": stats, "residuals": {"sparam_flow_silent_source": worst}, "nontrivial": bool(gscale > 0),
+            "signature": specgen.signature("sparam_flow", spec["axis"], len(spec["inputs"]), spec["pml"]), "digest": f"sparam:{r['T']}:{worst:.3g}:v{len(viol)}"}
+
+
 def execute(spec):
+    if spec.get("mode") == "sparam_flow":
+        return _exec_sparam_flow(spec)
     if spec.get("mode") == "grid":
         from fdsim import env
 
